@@ -554,6 +554,21 @@ func logElgEd25519Success(paddingLen, remainderLen int) {
 	}).Debug("Successfully read KeysAndCert")
 }
 
+// validateFixedKeySizes rejects a key certificate whose declared key sizes
+// differ from the ones a fixed-size reader has just assumed: the keys would
+// have been cut at the wrong offsets and the value could not be serialised.
+func validateFixedKeySizes(keyCert *key_certificate.KeyCertificate, pubKeySize, sigKeySize int) error {
+	if keyCert.CryptoSize() != pubKeySize || keyCert.SigningPublicKeySize() != sigKeySize {
+		return oops.Errorf(
+			"key certificate declares key sizes %d/%d (crypto type %d, signing type %d), this reader handles %d/%d only",
+			keyCert.CryptoSize(), keyCert.SigningPublicKeySize(),
+			keyCert.PublicKeyType(), keyCert.SigningPublicKeyType(),
+			pubKeySize, sigKeySize,
+		)
+	}
+	return nil
+}
+
 // ReadKeysAndCertElgAndEd25519 reads KeysAndCert with fixed ElGamal and Ed25519 key sizes.
 func ReadKeysAndCertElgAndEd25519(data []byte) (keysAndCert *KeysAndCert, remainder []byte, err error) {
 	logElgEd25519KeysDebug(len(data))
@@ -573,6 +588,9 @@ func ReadKeysAndCertElgAndEd25519(data []byte) (keysAndCert *KeysAndCert, remain
 	keysAndCert.KeyCertificate, remainder, err = extractKeyCertificate(data, totalKeySize)
 	if err != nil {
 		return
+	}
+	if err = validateFixedKeySizes(keysAndCert.KeyCertificate, pubKeySize, sigKeySize); err != nil {
+		return nil, remainder, err
 	}
 
 	logElgEd25519Success(len(keysAndCert.Padding), len(remainder))
@@ -684,6 +702,9 @@ func ReadKeysAndCertX25519AndEd25519(data []byte) (keysAndCert *KeysAndCert, rem
 	keysAndCert.KeyCertificate, remainder, err = extractKeyCertificate(data, totalKeySize)
 	if err != nil {
 		return
+	}
+	if err = validateFixedKeySizes(keysAndCert.KeyCertificate, pubKeySize, sigKeySize); err != nil {
+		return nil, remainder, err
 	}
 
 	log.WithFields(logger.Fields{
